@@ -113,6 +113,8 @@ var variants = map[string]variant{
 
 var builtOv = map[string]bool{}
 
+var onlyStage = -1
+
 func build(binary string) error {
 	v, ok := variants[binary]
 	if !ok {
@@ -244,6 +246,7 @@ func main() {
 	tier := flag.String("tier", "", "quick|thorough")
 	replay := flag.String("replay", "", "replay file")
 	only := flag.String("only", "", "run only stages whose scenario contains this substring (debugging)")
+	flag.IntVar(&onlyStage, "stage", -1, "run only the stage with this index (debugging)")
 	flag.Usage = func() { fmt.Fprintln(os.Stderr, "usage: vcheck <PROPERTY> --tier quick|thorough [--replay f]") }
 	// allow the property id before the flags
 	args := os.Args[1:]
@@ -317,6 +320,9 @@ func execute(plan *Plan, tier string, seed int64, replayFile, only string) int {
 	boundDone := map[string]int{}
 	for si, st := range plan.Stages {
 		if only != "" && !strings.Contains(st.Scenario, only) {
+			continue
+		}
+		if onlyStage >= 0 && si != onlyStage {
 			continue
 		}
 		if st.Kind == "bfs" {
